@@ -11,10 +11,11 @@ from mon.worker_checks import compact, base_result
 from mon.worker_harness import run_worker, safe_json
 
 FAILS = ["raise:ValueError", "raise:KeyError", "raise:CustomError", "raise:CustomBase", "raise:KeyboardInterrupt",
-         "raise:SystemExit", "raise:TimeoutError", "raise:CancelledError"]
+         "raise:SystemExit", "raise:TimeoutError", "raise:CancelledError", "raise:TaskRejectedError", "raise:FalsyError"]
 EXTRA_LABELS: List[Dict[str, Any]] = [
     {}, {"u": 1}, {"s": "txt", "f": 2.5}, {"b": True, "z": False}, {"by": b"\x00\xff", "n": -3},
     {"big": 2 ** 80, "e": ""}, {"uni": "ü∆", "fl": -0.0},
+    {"timeout": 50}, {"timeout": 75.5, "u": 2}, {"timeout": "60"},  # labels the worker itself reads are user labels too
 ]
 
 
@@ -64,6 +65,8 @@ def gen_c11_spec(rng: random.Random) -> Dict[str, Any]:
         "retry": {"default_count": default_count, "default_label": default_label, "no_result_on_retry": nro,
                   "pos": rng.choice([0, 1])},
         "backend": {"lat": rng.choice([0, "y", 0.01]), "stock": rng.random() < 0.4},
+        # the broker hands out acknowledgeable messages (an at-least-once broker re-delivers what is never acked)
+        "loop_ackable": rng.random() < 0.5,
         "stop_at": 30.0, "horizon": 60.0, "_meta": meta,
     }
     return spec
@@ -177,6 +180,15 @@ def oracle_c11(rr: Any, spec: Dict[str, Any]) -> "tuple[List[Violation], int]":
         for bm in kicked[tok]:
             if bm.task_id != tok:
                 v.append(Violation("task-id-changed", f"{tok}: re-sent as {bm.task_id}"))
+    for i in rr.sc.deliveries:
+        if not i.get("ackable"):
+            continue
+        evs = [e for e in tr if e["m"] == i["d"]]
+        ks = {e["k"] for e in evs}
+        if "cb_exit" in ks and "cb_raise" not in ks and "task_start" in ks and "ack" not in ks:
+            v.append(Violation("attempt-never-acknowledged", f"{i['tok']}: delivery {i['d']} was executed and processed to the end but never acknowledged; "
+                               "an at-least-once broker delivers it again, beyond max_retries"))
+            break
     if rr.outcome != "returned":
         v.append(Violation("worker-stalled", f"outcome {rr.outcome} {rr.err}"))
     return v, checked
